@@ -65,6 +65,7 @@ def run(ctx):
             # the legacy slow-validator deviation is C05's finding (C03's own text calls Data that arrived in time the
             # right outcome); here it only explains traces and is counted in evidence (explained_by_legacySlowValidator)
             pc.stage_c(ctx, front, ctx.pick(300, 5000), 40, devs=DEVS[front], report_devs=False)
+            pc.stage_c_long(ctx, front, ctx.pick(3, 30), devs=DEVS[front], report_devs=False)
 
 
 IMPL_INVS = ['PendingReachable', 'NoResidueImpl', 'OneNode', 'NoEmptyNode', 'NoInternalError']
